@@ -95,6 +95,17 @@ def main():
                 if P.project(c, outv) != pm:
                     corr_div.append(dict(case=c.line, tag=c.tag, profile=prof, model=mod[i][:2000], impl=outv[:2000]))
                     break
+        # EXTRACTION CROSS-CHECK: a slice of the cases evaluated by the kernel's vm_compute vs the extracted program
+        try:
+            xn, xbad = lib.extraction_crosscheck(pid, [props.model_line(l) for l in lines])
+        except Exception:
+            traceback.print_exc()
+            xn, xbad = 0, ["cross-check crashed: " + traceback.format_exc()[-300:]]
+        ev["coverage"]["extraction_crosscheck"] = "%d cases: digest by vm_compute == digest by the extracted OCaml model%s" % (
+            xn, "" if not xbad else " -- %d MISMATCH" % len(xbad))
+        if xbad:
+            print("EXTRACTION-CROSSCHECK-FAILED %s: %s" % (pid, xbad[0][:400]))
+            violations.append(("framework", "extraction cross-check: " + xbad[0][:300], "\n".join(xbad[:10])))
         # ORACLE (on the implementation's outputs)
         def spec(qs):
             return lib.run_lines(lib.driver_bin(), qs)
